@@ -108,6 +108,9 @@ func child() {
 		}
 	}
 	run.Count("children_completed:"+a.Class, 1)
+	if undecidedShown.Load() > 0 {
+		os.Exit(3) // completed, but the parent keeps our files for a post-mortem (--keep)
+	}
 	os.Exit(0)
 }
 
@@ -212,6 +215,9 @@ func main() {
 				classifyCrash(run, b, res)
 			case res.TimedOut:
 				run.Inconclusive(fmt.Sprintf("batch %d (%s): watchdog fired", b.Index, b.Class))
+			case res.ExitCode == 3:
+				run.Count("batches_completed", 1)
+				run.Count("batches_with_undecided_scenarios", 1)
 			case res.ExitCode != 0:
 				run.Inconclusive(fmt.Sprintf("batch %d (%s): child exited with %d", b.Index, b.Class, res.ExitCode))
 			default:
